@@ -179,10 +179,11 @@ def leads_outside(root, comps):
     return not (target == r or target.startswith(r + "/"))
 
 
-def one_request(res, sb, sw_holder, write, comps, method, cond, observe, repopulate=True):
-    key = write
+def one_request(res, sb, sw_holder, write, comps, method, cond, observe, repopulate=True, relative=False):
+    key = (write, "rel") if relative else write
     if key not in sw_holder:
-        sw_holder[key] = SiteWorld(lambda sw, w=write: FileServer(sb.root, sw.ctx.log.getChild("fs"), write=w))
+        # (relative: the root given the way the command line's default gives it - as "." with the process inside the directory)
+        sw_holder[key] = SiteWorld(lambda sw, w=write: FileServer(Path(".") if relative else sb.root, sw.ctx.log.getChild("fs"), write=w))
     sw = sw_holder[key]
     msg = Message(code=method, uri_path=list(comps), payload=b"NEW-CONTENT" if method in (PUT, POST, FETCH) else b"")
     if cond == "inm":
@@ -210,6 +211,8 @@ def one_request(res, sb, sw_holder, write, comps, method, cond, observe, repopul
     after = sb.snapshot()
     code = int(r.code) if hasattr(r, "code") else -1
     case = {"path": list(comps), "method": int(method), "write": write, "cond": cond, "observe": observe}
+    if relative:
+        case["relative_root"] = True
     res.evaluations += 1
     outside = sorted({p for ev, p in touched if not sb.inside(p)})
     shape = tuple("abs" if (i == 0 and c == "" and len(comps) > 1) else "empty" if c == "" else "dots" if c in (".", "..") else
@@ -289,6 +292,7 @@ def job(arg):
             blocks(res, sb, holder)
             two_roots(res, sb)
         elif kind == "histories":
+            relative_root(res, sb, holder)
             emptied_tree(res, sb, holder)
             replaced_between_fetches(res, sb, holder)
     finally:
@@ -296,6 +300,36 @@ def job(arg):
             sw.dispose()
         sb.destroy()
     return res
+
+
+def relative_root(res, sb, holder):
+    """The served directory given as "." (the command line's default), the process's home directory elsewhere: path components
+    that a shell would expand (~, ~user) are names like any other."""
+    home = sb.base / "home"
+    home.mkdir(exist_ok=True)
+    (home / "secret.txt").write_bytes(b"SECRET-HOME")
+    old_cwd, old_home = os.getcwd(), os.environ.get("HOME")
+    os.environ["HOME"] = str(home)
+    os.chdir(sb.root)
+    try:
+        small = ["~", "~root", "~nobody", "secret.txt", "f.txt", "sub", "", "..", "new.txt"]
+        for n in (1, 2):
+            for comps in itertools.product(small, repeat=n):
+                for method in (GET, PUT, DELETE):
+                    for write in (False, True):
+                        one_request(res, sb, holder, write, list(comps), method, "none", False, relative=True)
+                        os.chdir(sb.root)       # (the tree may have been set up afresh: step into the new directory)
+                        if not (home / "secret.txt").exists():
+                            (home / "secret.txt").write_bytes(b"SECRET-HOME")
+    finally:
+        os.chdir(old_cwd)
+        if old_home is None:
+            os.environ.pop("HOME", None)
+        else:
+            os.environ["HOME"] = old_home
+        for k in [k for k in holder if isinstance(k, tuple)]:
+            holder.pop(k).dispose()
+    res.sample({"relative_root": 'FileServer(Path(".")) with HOME elsewhere; components ~, ~root, ...'})
 
 
 def emptied_tree(res, sb, holder):
@@ -503,6 +537,8 @@ def replay(case, scenario, seed):
     try:
         if "two_roots" in case:
             two_roots(res, sb)
+        elif case.get("relative_root"):
+            relative_root(res, sb, holder)
         elif "emptied" in case:
             emptied_tree(res, sb, holder)
         elif "replaced" in case:
